@@ -69,8 +69,11 @@ PROPS = {
     "C07": dict(mc={"quick": ["repl-q"], "thorough": ["repl-t"]}, mech=["DeliverAE"], min_mech=2),
     "C08": dict(mc={"quick": ["repl-q"], "thorough": ["repl-t"]}, mech=["DeliverAE"], min_mech=1),
     "C09": dict(mc={"quick": ["repl-q"], "thorough": ["repl-t"]}, mech=["DeliverAR"], min_mech=1),
-    "C06": dict(mc={"quick": ["repl-q"], "thorough": ["repl-t"]}, mech=["DeliverAR"], min_mech=1),
-    "C10": dict(mc={"quick": ["repl-q"], "thorough": ["repl-t"]}, mech=["Client"], min_mech=1),
+    # apply pipeline / IO held while the commit index moves (scheduler profile "holds")
+    "C06": dict(mc={"quick": ["repl-q"], "thorough": ["repl-t"]}, mech=["DeliverAR"], min_mech=1,
+                rnd_cfgs=[{"n": 3, "cap": 2}, {"n": 3, "cap": 100}, {"n": 3, "cap": 100, "_profile": "holds"}]),
+    "C10": dict(mc={"quick": ["repl-q"], "thorough": ["repl-t"]}, mech=["Client"], min_mech=1,
+                rnd_cfgs=[{"n": 3, "cap": 2}, {"n": 3, "cap": 100}, {"n": 3, "cap": 100, "_profile": "holds"}]),
     "C14": dict(mc={"quick": ["repl-q"], "thorough": ["repl-t"]}, mech=["Client"], min_mech=1),
     "C29": dict(mc={"quick": ["repl-q"], "thorough": ["repl-t"]}, mech=["Client"], min_mech=1),
     "C31": dict(mc={"quick": ["elect-q"], "thorough": ["elect-t"]}, mech=["StartRound"], min_mech=1),
@@ -344,8 +347,10 @@ def run_harness(wd, schedules, rnd_runs, rnd_depth, seed_, cfg, rnd_cfgs=None, p
         variants = rnd_cfgs or [cfg, dict(cfg, cap=100)]
         for k, c in enumerate(variants):
             tp = os.path.join(wd, "trace-rnd-%d.ndjson" % k)
+            c = dict(c)
+            prof = c.pop("_profile", profile)          # a variant may bring its own scheduler profile
             dv.run([binp, "random", "--runs", str(max(1, rnd_runs // len(variants))), "--depth", str(rnd_depth),
-                    "--seed", str(seed_ + 7919 * k), "--cfg", json.dumps(c), "--profile", profile,
+                    "--seed", str(seed_ + 7919 * k), "--cfg", json.dumps(c), "--profile", prof,
                     "--out", tp, "--scratch", scratch], timeout=3000)
             traces.append(tp)
     return traces
